@@ -54,6 +54,8 @@ STUBS.update({
     'Pistache::DynamicStreamBuf::pbump': 'vs_sb_pbump',
     'baseinit:Pistache::StreamBuf<char>': '$->vs_base_StreamBuf = (struct vs_streambuf){0}',
     'eq_int_type': 'vs_traits_eq_int_type', 'not_eof': 'vs_traits_not_eof',
+    # the other char_traits conversions (so that a rewrite of overflow() is decided, not a tool error)
+    'to_char_type': {'expr': '((char)($0))'}, 'to_int_type': {'expr': '((int)(unsigned char)($0))'},
     'std::string::assign/2': 'vs_astr_assign_ptr_n', 'ctor:std::string/0': {'expr': 'vs_astr_ctor_empty()'},
     'move': {'expr': '($0)'},
     # vector move construction / assignment: the storage changes hands, the source is left empty (libstdc++; the standard says valid but unspecified)
